@@ -152,5 +152,273 @@ theorem scriptGo_errGe (st : SS) (t : Tokenizer) (h : ErrGe t) : ErrGe (scriptGo
     | (apply_assumption; exact unread_errGe_of_noerr _ _ (by simpa using ‹¬ _ = true›))
     | skip
 
+theorem rawTextGo_errGe (t : Tokenizer) (h : ErrGe t) : ErrGe (rawTextGo t) := by
+  fun_induction rawTextGo t
+  all_goals (try simp +zetaDelta only at *)
+  all_goals first
+    | errge
+    | exact readRawEndTag_errGe _ (readByte_errGe _ (readByte_errGe _ h))
+    | (apply_assumption; exact readRawEndTag_errGe _ (readByte_errGe _ (readByte_errGe _ h)))
+
+theorem readComment_errGe (t : Tokenizer) (h : ErrGe t) : ErrGe (readComment t) := by
+  unfold readComment
+  have := commentGo_errGe { t with dataS := t.rawE } 2 h
+  simp only
+  split
+  · exact this
+  · exact this
+
+theorem readUntilCloseAngle_errGe (t : Tokenizer) (h : ErrGe t) : ErrGe (readUntilCloseAngle t) :=
+  untilCloseAngleGo_errGe _ h
+
+theorem declLoop_errGe (t : Tokenizer) (cs : List (Nat × Nat)) (h : ErrGe t) : ErrGe (declLoop t cs).1 := by
+  induction cs generalizing t with
+  | nil => exact h
+  | cons c cs ih =>
+    obtain ⟨c, c'⟩ := c
+    have h1 := readByte_errGe t h
+    simp only [declLoop]
+    split
+    · exact h1
+    · rename_i herr
+      have hf : t.readByte.1.err = false := by simpa using herr
+      split
+      · intro he; simp [hf] at he
+      · exact ih _ h1
+
+theorem readDocType_errGe (t : Tokenizer) (h : ErrGe t) : ErrGe (readDocType t).1 := by
+  unfold readDocType
+  simp only
+  have h1 := declLoop_errGe t htmlDoctypePat h
+  have h2 := skipWhiteSpace_errGe _ h1
+  have h3 := readUntilCloseAngle_errGe _ h2
+  split
+  · exact h1
+  · split
+    · exact h2
+    · exact h3
+
+theorem readCdata_errGe (t : Tokenizer) (h : ErrGe t) : ErrGe (readCdata t).1 := by
+  unfold readCdata
+  simp only
+  have h1 := declLoop_errGe t htmlCdataPat h
+  have h2 := cdataGo_errGe { (declLoop t htmlCdataPat).1 with dataS := (declLoop t htmlCdataPat).1.rawE } 0 h1
+  split
+  · exact h1
+  · exact h2
+
+theorem markupRest_errGe (t : Tokenizer) (h : ErrGe t) : ErrGe (markupRest t).1 := by
+  unfold markupRest
+  simp only
+  have h1 := readDocType_errGe t h
+  have h2 := readCdata_errGe _ h1
+  have h3 := readUntilCloseAngle_errGe _ h2
+  have h4 := readUntilCloseAngle_errGe _ h1
+  split
+  · exact h1
+  · split
+    · split
+      · exact h2
+      · exact h3
+    · exact h4
+
+theorem markupGo_errGe (t : Tokenizer) (h : ErrGe t) : ErrGe (markupGo t).1 := by
+  unfold markupGo
+  simp only
+  have h1 := readByte_errGe t h
+  have h2 := readByte_errGe _ h1
+  split
+  · exact h1
+  · split
+    · exact h2
+    · rename_i herr
+      have hf : t.readByte.1.readByte.1.err = false := by simpa using herr
+      split
+      · exact readComment_errGe _ h2
+      · exact markupRest_errGe _ (unread_errGe_of_noerr _ _ hf)
+
+theorem readMarkupDeclaration_errGe (t : Tokenizer) (h : ErrGe t) : ErrGe (readMarkupDeclaration t).1 :=
+  markupGo_errGe _ h
+
+theorem readTagName_errGe (t : Tokenizer) (h : ErrGe t) : ErrGe (readTagName t) := by
+  unfold readTagName
+  split
+  · exact h
+  · exact tagNameGo_errGe _ h
+
+theorem attrValRest_errGe (t : Tokenizer) (h : ErrGe t) : ErrGe (attrValRest t) := by
+  unfold attrValRest
+  simp only
+  have h1 := skipWhiteSpace_errGe t h
+  have h2 := readByte_errGe _ h1
+  split
+  · exact h1
+  · split
+    · exact h2
+    · rename_i herr
+      have hf : t.skipWhiteSpace.readByte.1.err = false := by simpa using herr
+      split
+      · exact unread_errGe_of_noerr _ _ hf
+      · split
+        · exact attrValQuotedGo_errGe _ _ h2
+        · split
+          · exact h2
+          · exact attrValUnquotedGo_errGe _ h2
+
+theorem attrValGo_errGe (t : Tokenizer) (h : ErrGe t) : ErrGe (attrValGo t) := by
+  unfold attrValGo
+  simp only
+  have h1 := skipWhiteSpace_errGe t h
+  have h2 := readByte_errGe _ h1
+  split
+  · exact h1
+  · split
+    · exact h2
+    · rename_i herr
+      have hf : t.skipWhiteSpace.readByte.1.err = false := by simpa using herr
+      split
+      · exact unread_errGe_of_noerr _ _ hf
+      · exact attrValRest_errGe _ h2
+
+theorem readAttr_errGe (t : Tokenizer) (s : Bool) (h : ErrGe t) : ErrGe (readAttr t s) := by
+  unfold readAttr readTagAttrVal readTagAttrKey
+  simp only
+  have h1 := attrKeyGo_errGe { t with pkS := t.rawE } h
+  have h2 := attrValGo_errGe { ({ t with pkS := t.rawE } : Tokenizer).attrKeyGo with
+    pvS := ({ t with pkS := t.rawE } : Tokenizer).attrKeyGo.rawE, pvE := ({ t with pkS := t.rawE } : Tokenizer).attrKeyGo.rawE } h1
+  split
+  · exact skipWhiteSpace_errGe _ h2
+  · exact skipWhiteSpace_errGe _ h2
+
+theorem tagAttrsGo_errGe (t : Tokenizer) (s : Bool) (h : ErrGe t) : ErrGe (tagAttrsGo t s) := by
+  fun_induction tagAttrsGo t s
+  all_goals (try simp +zetaDelta only at *)
+  case case1 => exact readByte_errGe _ h
+  case case2 t _ hne _ _ =>
+    have hf : t.readByte.1.err = false := by
+      cases he : t.readByte.1.err with
+      | false => rfl
+      | true => simp [he] at hne
+    exact readAttr_errGe _ _ (unread_errGe_of_noerr _ _ hf)
+  case case3 t _ hne _ _ _ ih =>
+    have hf : t.readByte.1.err = false := by
+      cases he : t.readByte.1.err with
+      | false => rfl
+      | true => simp [he] at hne
+    exact ih (readAttr_errGe _ _ (unread_errGe_of_noerr _ _ hf))
+  case case4 t _ hne _ _ _ =>
+    have hf : t.readByte.1.err = false := by
+      cases he : t.readByte.1.err with
+      | false => rfl
+      | true => simp [he] at hne
+    exact readAttr_errGe _ _ (unread_errGe_of_noerr _ _ hf)
+
+theorem readTag_errGe (t : Tokenizer) (s : Bool) (h : ErrGe t) : ErrGe (readTag t s) := by
+  unfold readTag
+  simp only
+  have h1 := skipWhiteSpace_errGe _ (readTagName_errGe { t with attrs := #[], nAttrRet := 0 } h)
+  split
+  · exact h1
+  · exact tagAttrsGo_errGe _ _ h1
+
+theorem startTagRaw_fields (t : Tokenizer) :
+    (startTagRaw t).err = t.err ∧ (startTagRaw t).rawE = t.rawE ∧ (startTagRaw t).buf = t.buf ∧
+    (startTagRaw t).rawS = t.rawS ∧ (startTagRaw t).dataS = t.dataS ∧ (startTagRaw t).dataE = t.dataE := by
+  unfold startTagRaw
+  split
+  · simp only
+    generalize t.rawLookup _ htmlRawDispatch = r
+    generalize t.slice? t.dataS t.dataE = sl
+    rcases r with _ | _ | _
+    · simp
+    · simp
+    · rcases sl with _ | bs
+      · simp
+      · simp only; split <;> simp
+  · simp
+
+theorem readStartTag_errGe (t : Tokenizer) (h : ErrGe t) : ErrGe (readStartTag t).1 := by
+  unfold readStartTag
+  simp only
+  have h1 := readTag_errGe t true h
+  have f := startTagRaw_fields (readTag t true)
+  have h2 : ErrGe (startTagRaw (readTag t true)) := by
+    intro he; rw [f.1] at he; have := h1 he; rw [f.2.1, f.2.2.1]; exact this
+  (repeat' split) <;> first | exact h1 | exact h2
+
+theorem finishText_errGe (t : Tokenizer) (h : ErrGe t) : ErrGe (finishText t) := by
+  unfold finishText; split <;> exact h
+
+theorem dispatchTag_errGe (t : Tokenizer) (b : Nat) (h : t.err = false) : ErrGe (dispatchTag t b) := by
+  have h0 : ErrGe t := by intro he; rw [h] at he; cases he
+  have h1 := readByte_errGe t h0
+  unfold dispatchTag
+  simp only
+  split
+  · exact h0
+  · split
+    · intro he; simp [h] at he
+    · split
+      · exact readStartTag_errGe t h0
+      · split
+        · split
+          · exact finishText_errGe _ h1
+          · rename_i herr
+            have hf : t.readByte.1.err = false := by simpa using herr
+            split
+            · exact h1
+            · split
+              · have := readTag_errGe t.readByte.1 false h1
+                split <;> exact this
+              · exact readUntilCloseAngle_errGe _ (unread_errGe_of_noerr _ _ hf)
+        · split
+          · exact readMarkupDeclaration_errGe t h0
+          · exact readUntilCloseAngle_errGe _ (unread_errGe_of_noerr _ _ h)
+
+theorem mainLoop_errGe (t : Tokenizer) (h : ErrGe t) : ErrGe (mainLoop t) := by
+  fun_induction mainLoop t
+  all_goals (try simp +zetaDelta only at *)
+  case case1 => exact finishText_errGe _ (readByte_errGe _ h)
+  case case2 ih => exact ih (readByte_errGe _ h)
+  case case3 => exact finishText_errGe _ (readByte_errGe _ (readByte_errGe _ h))
+  case case4 t _ _ _ _ herr2 _ ih =>
+    exact ih (unread_errGe_of_noerr _ _ (by simpa using herr2))
+  case case5 t _ _ _ _ herr2 _ =>
+    exact dispatchTag_errGe _ _ (by simpa using herr2)
+
+theorem readRawOrCdata_errGe (t : Tokenizer) (h : ErrGe t) : ErrGe (readRawOrCdata t) := by
+  unfold readRawOrCdata readScript
+  split
+  · exact scriptGo_errGe _ _ h
+  · exact rawTextGo_errGe _ h
+
+theorem nextGo_errGe (t : Tokenizer) (h : ErrGe t) : ErrGe (nextGo t) := by
+  unfold nextGo
+  simp only
+  have h1 := readToEnd_errGe t h
+  have h2 := readRawOrCdata_errGe t h
+  split
+  · exact h
+  · split
+    · split
+      · split
+        · exact h1
+        · exact mainLoop_errGe _ h1
+      · split
+        · exact h2
+        · exact mainLoop_errGe _ h2
+    · exact mainLoop_errGe _ h
+
+theorem next_errGe (t : Tokenizer) (h : ErrGe t) : ErrGe (next t) := nextGo_errGe _ h
+
+theorem nexts_errGe (n : Nat) (t : Tokenizer) (h : ErrGe t) : ErrGe (nexts n t) := by
+  induction n with
+  | zero => exact h
+  | succ n ih => exact next_errGe _ ih
+
+/-- a token that hit EOF ends at the end of the buffer -/
+theorem err_rawE_eq (t : Tokenizer) (inv : Inv t) (h : ErrGe t) (he : t.err = true) : t.rawE = t.buf.size :=
+  Nat.le_antisymm inv.ok.le (h he)
+
 end Tokenizer
 end Rio.Html
